@@ -42,6 +42,7 @@ type corruption struct {
 	Id    string // entity id (ED EA FS FN)
 	Val   string // index value / set member
 	Tgt   string // id written into the index
+	Child string // CFS CFN: the child store whose bucket (inside the entity bucket) holds the field
 }
 
 func (c corruption) text() string {
@@ -56,13 +57,24 @@ func (c corruption) text() string {
 		return fmt.Sprintf("%s %s %s %s", c.Op, c.Root, hxs(c.Id), c.Name)
 	case "XDB", "XEB":
 		return fmt.Sprintf("%s %s %s", c.Op, c.Root, c.Name)
+	case "CFS":
+		return fmt.Sprintf("%s %s %s %s %s %s", c.Op, c.Root, hxs(c.Id), c.Child, c.Name, hxs(c.Val))
+	case "CFN":
+		return fmt.Sprintf("%s %s %s %s %s", c.Op, c.Root, hxs(c.Id), c.Child, c.Name)
 	}
 	return "?"
 }
 
 func parseCorruptions(toks []string) ([]corruption, error) {
 	pos := 0
-	next := func() string { t := toks[pos]; pos++; return t }
+	next := func() string {
+		if pos >= len(toks) {
+			return ""
+		}
+		t := toks[pos]
+		pos++
+		return t
+	}
 	var n int
 	fmt.Sscanf(next(), "%d", &n)
 	var out []corruption
@@ -79,6 +91,10 @@ func parseCorruptions(toks []string) ([]corruption, error) {
 			c.Root, c.Id, c.Name, c.Val = next(), string(unhx(next())), next(), string(unhx(next()))
 		case "FN", "EDB", "EEB":
 			c.Root, c.Id, c.Name = next(), string(unhx(next())), next()
+		case "CFS":
+			c.Root, c.Id, c.Child, c.Name, c.Val = next(), string(unhx(next())), next(), next(), string(unhx(next()))
+		case "CFN":
+			c.Root, c.Id, c.Child, c.Name = next(), string(unhx(next())), next(), next()
 		default:
 			return nil, fmt.Errorf("bad corruption %q", c.Op)
 		}
@@ -201,6 +217,19 @@ func applyCorruption(tx *bbolt.Tx, c corruption) error {
 			return nil
 		}
 		return eb.Put([]byte(c.Name), []byte{byte(boltz.TypeNil)})
+	case "CFS", "CFN": // a field a child store keeps in its own bucket inside the entity bucket
+		eb := entBucket()
+		if eb == nil {
+			return nil
+		}
+		cb := eb.Bucket([]byte(c.Child))
+		if cb == nil {
+			return nil
+		}
+		if c.Op == "CFN" {
+			return cb.Put([]byte(c.Name), []byte{byte(boltz.TypeNil)})
+		}
+		return cb.Put([]byte(c.Name), boltz.PrependFieldType(boltz.TypeString, []byte(c.Val)))
 	// ---- whole-bucket corruptions: the bucket is ABSENT (..DB) or PRESENT BUT EMPTY (..EB / SEK); the model
 	// state does not distinguish the two (Integrity.v XSetClear / XSClearKey / XSClearIdx / XUClearIdx)
 	case "EDB": // the whole string-set bucket (back-references / links / set field) of an entity is gone
@@ -266,13 +295,14 @@ type factView struct {
 	sets   map[string][]string            // root/id/set -> members
 	uidx   map[string][][2]string         // root/sym -> (value, id)
 	sidx   map[string]map[string][]string // root/sym -> value -> ids
+	child  map[string]bool                // root/id/childstore: the entity has data of that child store
 }
 
 func unhxs(s string) string { return string(unhx(s)) }
 
 func viewFacts(facts []string) *factView {
 	v := &factView{ents: map[string][]string{}, fields: map[string]string{}, sets: map[string][]string{},
-		uidx: map[string][][2]string{}, sidx: map[string]map[string][]string{}}
+		uidx: map[string][][2]string{}, sidx: map[string]map[string][]string{}, child: map[string]bool{}}
 	for _, f := range facts {
 		p := strings.Split(f, ":")
 		switch p[0] {
@@ -280,6 +310,10 @@ func viewFacts(facts []string) *factView {
 			v.ents[p[1]] = append(v.ents[p[1]], unhxs(p[2]))
 		case "F":
 			v.fields[p[1]+"/"+unhxs(p[2])+"/"+p[3]] = p[4]
+		case "C":
+			v.child[p[1]+"/"+unhxs(p[2])+"/"+p[3]] = true
+		case "CF": // a child store's own field: keyed root/id/<child>.<field>
+			v.fields[p[1]+"/"+unhxs(p[2])+"/"+p[3]+"."+p[4]] = p[5]
 		case "S":
 			k := p[1] + "/" + unhxs(p[2]) + "/" + p[3]
 			v.sets[k] = append(v.sets[k], unhxs(p[4]))
@@ -310,6 +344,58 @@ func (w *wiring) rootOf(store string) string {
 		return p
 	}
 	return store
+}
+
+// ownField: the field is declared by the (child) store itself, i.e. lives in the child bucket
+func (s *sStore) ownField(f string) bool {
+	if s.Parent == "" {
+		return false
+	}
+	for _, x := range s.Fields {
+		if x.Name == f {
+			return true
+		}
+	}
+	return false
+}
+
+// members: the ids store s iterates (IterateValidIds): every entity of a root store, the entities with child data else
+func (v *factView) members(w *wiring, s *sStore) []string {
+	root := w.rootOf(s.Name)
+	if s.Parent == "" {
+		return v.ents[root]
+	}
+	var out []string
+	for _, i := range v.ents[root] {
+		if v.child[root+"/"+i+"/"+s.Name] {
+			out = append(out, i)
+		}
+	}
+	return out
+}
+
+// fieldOf: the value token of field f as store s evaluates it
+func (v *factView) fieldOf(w *wiring, s *sStore, i, f string) string {
+	root := w.rootOf(s.Name)
+	if s.ownField(f) {
+		return v.fields[root+"/"+i+"/"+s.Name+"."+f]
+	}
+	return v.fields[root+"/"+i+"/"+f]
+}
+
+// c09SetField / c09NilField: the raw write that overwrites field f of entity i as store s sees it
+func c09SetField(w *wiring, s *sStore, class, i, f, val string) corruption {
+	if s.ownField(f) {
+		return corruption{Op: "CFS", Class: class, Root: w.rootOf(s.Name), Id: i, Child: s.Name, Name: f, Val: val}
+	}
+	return corruption{Op: "FS", Class: class, Root: w.rootOf(s.Name), Id: i, Name: f, Val: val}
+}
+
+func c09NilField(w *wiring, s *sStore, class, i, f string) corruption {
+	if s.ownField(f) {
+		return corruption{Op: "CFN", Class: class, Root: w.rootOf(s.Name), Id: i, Child: s.Name, Name: f}
+	}
+	return corruption{Op: "FN", Class: class, Root: w.rootOf(s.Name), Id: i, Name: f}
 }
 
 // candidates enumerates the corruptions of the supported classes that apply to the (consistent) state
@@ -382,6 +468,18 @@ func candidates(w *wiring, facts []string, r *rng, universe []string) []corrupti
 					if i, ok := pick(ids); ok {
 						add(corruption{Op: "FN", Class: "nil-field", Root: root, Id: i, Name: c.Field})
 					}
+				} else if s.ownField(c.Field) {
+					// the same two genuine conflicts on a field the child store keeps in its own bucket
+					ids := v.members(w, s)
+					if len(ids) >= 2 {
+						i, j := ids[r.intn(len(ids))], ids[r.intn(len(ids))]
+						if val := v.fieldOf(w, s, j, c.Field); i != j && strings.HasPrefix(val, "s") && val != "s-" {
+							add(c09SetField(w, s, "unique-duplicate-value", i, c.Field, unhxs(val[1:])))
+						}
+					}
+					if i, ok := pick(ids); ok {
+						add(c09NilField(w, s, "nil-field", i, c.Field))
+					}
 				}
 			case "SI":
 				keys := v.sidx[root+"/"+c.Field]
@@ -425,8 +523,9 @@ func candidates(w *wiring, facts []string, r *rng, universe []string) []corrupti
 				}
 			case "FI", "FC":
 				troot := w.rootOf(c.Target)
-				for _, i := range v.ents[root] {
-					val := v.fields[root+"/"+i+"/"+c.Field]
+				referrers := v.members(w, s)
+				for _, i := range referrers {
+					val := v.fieldOf(w, s, i, c.Field)
 					if c.Kind == "FI" && strings.HasPrefix(val, "s") && val != "s-" {
 						add(corruption{Op: "ED", Class: "fk-missing-backref", Root: troot, Id: unhxs(val[1:]), Name: c.Back, Val: i})
 					}
@@ -441,8 +540,8 @@ func candidates(w *wiring, facts []string, r *rng, universe []string) []corrupti
 				// the fk field re-pointed below the API to ANOTHER EXISTING target: preferably one that never had a
 				// referrer, whose back-reference bucket therefore does not exist (it is created lazily by the first
 				// referrer): the old target keeps a wrong back-reference, the new one misses its only one
-				for _, i := range v.ents[root] {
-					val := v.fields[root+"/"+i+"/"+c.Field]
+				for _, i := range referrers {
+					val := v.fieldOf(w, s, i, c.Field)
 					cur := ""
 					if strings.HasPrefix(val, "s") && val != "s-" {
 						cur = unhxs(val[1:])
@@ -459,10 +558,10 @@ func candidates(w *wiring, facts []string, r *rng, universe []string) []corrupti
 						}
 					}
 					if t, ok := pick(noRef); ok {
-						add(corruption{Op: "FS", Class: "fk-repoint-target-without-backrefs", Root: root, Id: i, Name: c.Field, Val: t})
+						add(c09SetField(w, s, "fk-repoint-target-without-backrefs", i, c.Field, t))
 					}
 					if t, ok := pick(other); ok {
-						add(corruption{Op: "FS", Class: "fk-repoint", Root: root, Id: i, Name: c.Field, Val: t})
+						add(c09SetField(w, s, "fk-repoint", i, c.Field, t))
 					}
 				}
 				// the whole back-reference bucket of a target absent / emptied (every referrer misses its back-reference
@@ -482,9 +581,9 @@ func candidates(w *wiring, facts []string, r *rng, universe []string) []corrupti
 						add(corruption{Op: "EDB", Class: "fk-backref-bucket-empty-removed", Root: troot, Id: ti, Name: c.Back})
 					}
 				}
-				if i, ok := pick(v.ents[root]); ok {
-					add(corruption{Op: "FS", Class: "fk-dangling-ref", Root: root, Id: i, Name: c.Field, Val: ghost(troot)})
-					add(corruption{Op: "FN", Class: "nil-field", Root: root, Id: i, Name: c.Field})
+				if i, ok := pick(referrers); ok {
+					add(c09SetField(w, s, "fk-dangling-ref", i, c.Field, ghost(troot)))
+					add(c09NilField(w, s, "nil-field", i, c.Field))
 				}
 			}
 		}
@@ -590,7 +689,11 @@ func (h *harnessDb) rawDump() string {
 			return nil
 		})
 	}
-	_ = h.db.View(func(tx *bbolt.Tx) error {
+	view := h.db.View
+	if h.factsTx != nil { // inside the (uncommitted) transaction of an in-transaction case
+		view = func(f func(*bbolt.Tx) error) error { return f(h.factsTx) }
+	}
+	_ = view(func(tx *bbolt.Tx) error {
 		return tx.ForEach(func(name []byte, b *bbolt.Bucket) error {
 			fmt.Fprintf(hsh, "T %x\n", name)
 			walk(b, 1)
@@ -600,8 +703,14 @@ func (h *harnessDb) rawDump() string {
 	return fmt.Sprintf("%x", hsh.Sum(nil))
 }
 
-// checkPhase runs CheckIntegrity of every store in schema order inside one transaction
+// checkPhase runs CheckIntegrity of every store in schema order inside one transaction of its own
 func (h *harnessDb) checkPhase(tag string, fix bool, readOnly bool) string {
+	return h.checkPhaseIn(nil, tag, fix, readOnly)
+}
+
+// checkPhaseIn: with inCtx != nil the phase runs inside the caller's open write transaction (h.factsTx is set, so the
+// facts and the byte-exact dump show what THAT transaction sees, committed or not)
+func (h *harnessDb) checkPhaseIn(inCtx boltz.MutateContext, tag string, fix bool, readOnly bool) string {
 	var reports []string
 	status := "ok"
 	sink := func(err error, fixed bool) {
@@ -626,11 +735,14 @@ func (h *harnessDb) checkPhase(tag string, fix bool, readOnly bool) string {
 	if !fix {
 		before = h.rawDump()
 	}
-	if readOnly {
+	switch {
+	case inCtx != nil:
+		_ = body(inCtx)
+	case readOnly:
 		_ = h.db.View(func(tx *bbolt.Tx) error {
 			return body(boltz.NewTxMutateContext(context.Background(), tx))
 		})
-	} else {
+	default:
 		_ = h.db.Update(nil, body)
 	}
 	var sb strings.Builder
@@ -656,7 +768,7 @@ func (h *harnessDb) checkPhase(tag string, fix bool, readOnly bool) string {
 }
 
 // execTx runs one transaction of a history through Db.Update (as harnessDb.runTx, without observations)
-func (h *harnessDb) execTx(t *hTx) {
+func (h *harnessDb) execTx(t *hTx) error {
 	h.mu.Lock()
 	h.vetoes = map[string]bool{}
 	for _, v := range t.Vetoes {
@@ -669,7 +781,7 @@ func (h *harnessDb) execTx(t *hTx) {
 	if t.Sys {
 		ctx = ctx.GetSystemContext()
 	}
-	_ = h.db.Update(ctx, func(ctx boltz.MutateContext) error {
+	return h.db.Update(ctx, func(ctx boltz.MutateContext) error {
 		if t.PreCommitErr {
 			ctx.AddPreCommitAction(func(boltz.MutateContext) error { return fmt.Errorf("pre-commit action failed") })
 		}
@@ -682,9 +794,71 @@ func (h *harnessDb) execTx(t *hTx) {
 	})
 }
 
+// c09Mode: how the steps of a case are grouped into transactions (token "MODE <name>" at the end of a case line; the
+// model is a state machine and ignores it - the verdicts must not depend on the grouping):
+//
+//	""    every step in a transaction of its own (history, corruptions, CKR in db.View, CKW, FIX, RCK)
+//	J     corruptions committed; CKR in db.View; then CKW, FIX and RCK inside ONE db.Update (fix, then verify, then commit)
+//	CJ    corruptions, two check-only runs, FIX and RCK inside ONE db.Update (the checker inspects uncommitted raw writes)
+//	LCJ   additionally the LAST transaction of the history is not committed on its own: its operations run first inside
+//	      that same db.Update (populate / update through the API and check before commit).  If one of them fails the
+//	      transaction is rolled back - as the model's run_tx says - and the rest runs as CJ on the state before it.
+//
+// In the joint modes a POST phase follows the commit: check-only in a fresh read-only transaction; it must see the facts
+// the RCK phase saw inside the transaction and give the same verdict.
+type c09Mode struct {
+	name                   string
+	live, corruptIn, joint bool
+}
+
+func c09ParseMode(name string) (c09Mode, error) {
+	switch name {
+	case "":
+		return c09Mode{}, nil
+	case "J":
+		return c09Mode{name: name, joint: true}, nil
+	case "CJ":
+		return c09Mode{name: name, joint: true, corruptIn: true}, nil
+	case "LCJ":
+		return c09Mode{name: name, joint: true, corruptIn: true, live: true}, nil
+	}
+	return c09Mode{}, fmt.Errorf("bad mode %q", name)
+}
+
+func (h *harnessDb) c09ApplyCorruptions(tx *bbolt.Tx, cs []corruption) error {
+	for _, x := range cs {
+		if e := applyCorruption(tx, x); e != nil {
+			return fmt.Errorf("corruption %s: %v", x.text(), e)
+		}
+	}
+	// XDB removed the index bucket of a symbol altogether.  Index buckets are created by InitializeIndexes, which an
+	// application runs on every start before it touches a store (setIndex.getIndexBucket: "bucket ... for index not
+	// created"); the supported state is therefore "bucket deleted, process restarted": the start-up step runs again.
+	for _, x := range cs {
+		if x.Op == "XDB" {
+			holder := &errHolder{}
+			for _, def := range h.w.Stores {
+				h.stores[def.Name].InitializeIndexes(tx, holder)
+			}
+			return holder.err
+		}
+	}
+	return nil
+}
+
+func (h *harnessDb) c09Pre(flags string) string {
+	var o strings.Builder
+	o.WriteString("PRE ok" + flags + " R ST")
+	for _, f := range h.facts() {
+		o.WriteString(" " + f)
+	}
+	o.WriteString(" | ")
+	return o.String()
+}
+
 // runC09Case executes history + corruptions + the four checker phases on a fresh database;
 // the corruptions are chosen by [choose] from the facts of the consistent state the history leaves
-func runC09Case(w *wiring, txs []hTx, choose func(facts []string) []corruption, dir string) (string, string, []corruption, error) {
+func runC09Case(w *wiring, txs []hTx, choose func(facts []string) []corruption, dir string, mode c09Mode) (string, string, []corruption, error) {
 	h, err := openHarnessDb(w, dir)
 	if err != nil {
 		return "", "", nil, err
@@ -692,54 +866,110 @@ func runC09Case(w *wiring, txs []hTx, choose func(facts []string) []corruption, 
 	defer h.close()
 	var c, o strings.Builder
 	c.WriteString(w.text())
+	committed := txs
+	var live *hTx
+	if mode.live && len(txs) > 0 {
+		live = &txs[len(txs)-1]
+		committed = txs[:len(txs)-1]
+		if live.PreCommitErr { // rolled back whatever it does: nothing of it is visible to the check
+			live = nil
+		}
+	}
 	for i := range txs {
 		c.WriteString(" ")
 		c.WriteString(w.txText(&txs[i]))
-		h.execTx(&txs[i])
 	}
-	cs := choose(h.facts())
-	fmt.Fprintf(&c, " CORRUPT %d", len(cs))
-	for _, x := range cs {
-		c.WriteString(" " + x.text())
+	for i := range committed {
+		_ = h.execTx(&committed[i])
 	}
-	err = h.db.Update(nil, func(ctx boltz.MutateContext) error {
+	var cs []corruption
+	finishCase := func() {
+		fmt.Fprintf(&c, " CORRUPT %d", len(cs))
 		for _, x := range cs {
-			if e := applyCorruption(ctx.Tx(), x); e != nil {
-				return fmt.Errorf("corruption %s: %v", x.text(), e)
+			c.WriteString(" " + x.text())
+		}
+		if mode.name != "" {
+			c.WriteString(" MODE " + mode.name)
+		}
+	}
+	if !mode.corruptIn {
+		cs = choose(h.facts())
+		err = h.db.Update(nil, func(ctx boltz.MutateContext) error {
+			return h.c09ApplyCorruptions(ctx.Tx(), cs)
+		})
+		if err != nil {
+			return "", "", nil, err
+		}
+		o.WriteString(h.c09Pre(""))
+		o.WriteString(h.checkPhase("CKR", false, true))
+		if !mode.joint {
+			o.WriteString(h.checkPhase("CKW", false, false))
+			o.WriteString(h.checkPhase("FIX", true, false))
+			o.WriteString(h.checkPhase("RCK", false, false))
+			finishCase()
+			return c.String(), o.String(), cs, nil
+		}
+	}
+	// the joint transaction
+	attempt := func(withLive bool) (string, error, error) {
+		var jo strings.Builder
+		var liveErr error
+		h.mu.Lock()
+		h.vetoes = map[string]bool{}
+		if withLive {
+			for _, v := range live.Vetoes {
+				h.vetoes[v.Store+"/"+v.Change+"/"+v.Id] = true
 			}
 		}
-		return nil
-	})
-	if err != nil {
-		return "", "", nil, err
-	}
-	// XDB removed the index bucket of a symbol altogether.  Index buckets are created by InitializeIndexes, which an
-	// application runs on every start before it touches a store (setIndex.getIndexBucket: "bucket ... for index not
-	// created"); the supported state is therefore "bucket deleted, process restarted": the start-up step runs again.
-	for _, x := range cs {
-		if x.Op == "XDB" {
-			err = h.db.Update(nil, func(ctx boltz.MutateContext) error {
-				holder := &errHolder{}
-				for _, def := range w.Stores {
-					h.stores[def.Name].InitializeIndexes(ctx.Tx(), holder)
+		h.events = nil
+		h.raised = 0
+		h.mu.Unlock()
+		ctx := boltz.NewMutateContext(context.Background())
+		if withLive && live.Sys {
+			ctx = ctx.GetSystemContext()
+		}
+		txErr := h.db.Update(ctx, func(ctx boltz.MutateContext) error {
+			h.factsTx = ctx.Tx()
+			defer func() { h.factsTx = nil }()
+			if withLive {
+				for i := range live.Ops {
+					if e := h.execOp(ctx, &live.Ops[i]); e != nil {
+						liveErr = e
+						return e
+					}
 				}
-				return holder.err
-			})
-			if err != nil {
-				return "", "", nil, err
 			}
-			break
-		}
+			if mode.corruptIn {
+				cs = choose(h.facts())
+				if e := h.c09ApplyCorruptions(ctx.Tx(), cs); e != nil {
+					return e
+				}
+				flags := ""
+				if withLive {
+					flags = " LIVE" // the operations of the history's last transaction ran inside this transaction
+				} else if live != nil {
+					flags = " LIVEROLLEDBACK"
+				}
+				jo.WriteString(h.c09Pre(flags))
+				jo.WriteString(h.checkPhaseIn(ctx, "CKR", false, false))
+			}
+			jo.WriteString(h.checkPhaseIn(ctx, "CKW", false, false))
+			jo.WriteString(h.checkPhaseIn(ctx, "FIX", true, false))
+			jo.WriteString(h.checkPhaseIn(ctx, "RCK", false, false))
+			return nil
+		})
+		return jo.String(), liveErr, txErr
 	}
-	o.WriteString("PRE ok R ST")
-	for _, f := range h.facts() {
-		o.WriteString(" " + f)
+	seg, liveErr, txErr := attempt(live != nil)
+	if liveErr != nil {
+		seg, _, txErr = attempt(false) // the history's last transaction is rolled back; check the state before it
 	}
-	o.WriteString(" | ")
-	o.WriteString(h.checkPhase("CKR", false, true))
-	o.WriteString(h.checkPhase("CKW", false, false))
-	o.WriteString(h.checkPhase("FIX", true, false))
-	o.WriteString(h.checkPhase("RCK", false, false))
+	if txErr != nil {
+		return "", "", nil, fmt.Errorf("joint transaction: %v", txErr)
+	}
+	o.WriteString(seg)
+	o.WriteString(h.checkPhase("POST", false, true))
+	finishCase()
 	return c.String(), o.String(), cs, nil
 }
 
@@ -751,7 +981,7 @@ func consistentFacts(w *wiring, txs []hTx, dir string) ([]string, error) {
 	}
 	defer h.close()
 	for i := range txs {
-		h.execTx(&txs[i])
+		_ = h.execTx(&txs[i])
 	}
 	return h.facts(), nil
 }
@@ -871,10 +1101,16 @@ func runC09(o *opts) error {
 	defer impl.close()
 	tmp := o.get("tmp", os.TempDir())
 	stats := map[string]int{}
-	emit := func(w *wiring, txs []hTx, choose func(facts []string) []corruption) error {
-		c, obs, cs, err := runC09Case(w, txs, choose, tmp)
+	emitMode := func(w *wiring, txs []hTx, choose func(facts []string) []corruption, mode c09Mode) error {
+		c, obs, cs, err := runC09Case(w, txs, choose, tmp, mode)
 		if err != nil {
 			return err
+		}
+		if mode.name != "" {
+			stats["mode_"+mode.name]++
+			if mode.live && !strings.Contains(obs, "PRE ok LIVE R") {
+				stats["mode_LCJ_live_rolled_back"]++
+			}
 		}
 		cases.line("%s", c)
 		impl.line("%s", obs)
@@ -885,6 +1121,9 @@ func runC09(o *opts) error {
 		}
 		stats["wiring_"+w.Name]++
 		return nil
+	}
+	emit := func(w *wiring, txs []hTx, choose func(facts []string) []corruption) error {
+		return emitMode(w, txs, choose, c09Mode{})
 	}
 	fixed := func(cs []corruption) func([]string) []corruption {
 		return func([]string) []corruption { return cs }
@@ -900,6 +1139,14 @@ func runC09(o *opts) error {
 			if line == "" || strings.HasPrefix(line, "#") {
 				continue
 			}
+			mode := c09Mode{}
+			if k := strings.LastIndex(line, " MODE "); k >= 0 {
+				var err error
+				if mode, err = c09ParseMode(strings.TrimSpace(line[k+6:])); err != nil {
+					return fmt.Errorf("corpus %s: %v", cp, err)
+				}
+				line = line[:k]
+			}
 			parts := strings.SplitN(line, " CORRUPT ", 2)
 			w, txs, err := parseCase(parts[0])
 			if err != nil {
@@ -911,7 +1158,7 @@ func runC09(o *opts) error {
 					return err
 				}
 			}
-			if err := emit(w, txs, fixed(cs)); err != nil {
+			if err := emitMode(w, txs, fixed(cs), mode); err != nil {
 				return err
 			}
 			stats["corpus"]++
@@ -939,10 +1186,9 @@ func runC09(o *opts) error {
 		return w, g.genPopulated()
 	}
 	// random (state, corruption subset) pairs
-	for i := 0; i < n; i++ {
-		w, txs := mkHistory(i)
-		err := emit(w, txs, func(facts []string) []corruption {
-			cands := candidates(w, facts, r, prof.ids)
+	randomChoice := func(w *wiring, ids []string, pZero int) func(facts []string) []corruption {
+		return func(facts []string) []corruption {
+			cands := candidates(w, facts, r, ids)
 			stats["candidates_total"] += len(cands)
 			k := 0
 			switch x := r.intn(100); {
@@ -958,6 +1204,9 @@ func runC09(o *opts) error {
 				k = 4
 			default:
 				k = 5 + r.intn(4)
+			}
+			if pZero > 0 && r.chance(pZero) {
+				k = 0
 			}
 			// half of the draws uniform over the candidates (classes with many instances dominate), half uniform
 			// over the CLASSES present first (whole-bucket classes have one or two instances per state)
@@ -979,11 +1228,20 @@ func runC09(o *opts) error {
 				}
 			}
 			return cs
-		})
-		if err != nil {
+		}
+	}
+	for i := 0; i < n; i++ {
+		w, txs := mkHistory(i)
+		if err := emit(w, txs, randomChoice(w, prof.ids, 0)); err != nil {
 			return err
 		}
 		stats["random_cases"]++
+	}
+	// in-transaction cases and the child-store wirings (store_c09_w3.go)
+	if o.get("only-corpus", "") == "" {
+		if err := c09W3Streams(o, r, prof, tmp, stats, emitMode, randomChoice); err != nil {
+			return err
+		}
 	}
 	// bounded-exhaustive: all subsets of <= 4 corruptions out of a pool of candidates, per state
 	for i := 0; i < nStates; i++ {
